@@ -58,6 +58,26 @@ CORPUS = [
         {'k': 'cat', 'src': [9, 10], 'dim': 1}, {'k': 'flatten', 'src': 11},
         {'k': 'linear', 'src': 12, 'cin': 6, 'cout': 2, 'bias': True})},
         'style': 'min', 'single': False, 'full_cost': False, 'exclude': []}),
+    # depthwise layers whose shared mask has a pruned channel, cost specification re-assigned after the pruning (1-D, 2-D)
+    ('depthwise-pruned-respecified-1d', {'spec': {'dim': 1, 'input_shape': [2, 10], 'out': [8], 'productions': ['corpus', 'dw'], 'nodes': _n(
+        {'k': 'in', 'shape': [2, 10]},
+        {'k': 'pad1d', 'src': 0, 'left': 2},
+        {'k': 'conv1d', 'src': 1, 'cin': 2, 'cout': 5, 'ks': 3, 'dil': 1, 'stride': 1, 'groups': 1, 'bias': True},
+        {'k': 'relu', 'src': 2},
+        {'k': 'pad1d', 'src': 3, 'left': 4},
+        {'k': 'conv1d', 'src': 4, 'cin': 5, 'cout': 5, 'ks': 5, 'dil': 1, 'stride': 1, 'groups': 5, 'bias': True},
+        {'k': 'gap1d', 'src': 5}, {'k': 'flatten', 'src': 6},
+        {'k': 'linear', 'src': 7, 'cin': 5, 'cout': 3, 'bias': True})},
+        'style': 'one-dead', 'single': False, 'full_cost': False, 'exclude': []}),
+    ('depthwise-pruned-respecified-2d', {'spec': {'dim': 2, 'input_shape': [3, 6, 6], 'out': [7], 'productions': ['corpus', 'dw'], 'nodes': _n(
+        {'k': 'in', 'shape': [3, 6, 6]},
+        {'k': 'conv2d', 'src': 0, 'cin': 3, 'cout': 6, 'ks': [3, 3], 'dil': 1, 'stride': 1, 'groups': 1, 'bias': False, 'padding': 1},
+        {'k': 'bn2d', 'src': 1, 'c': 6}, {'k': 'relu', 'src': 2},
+        {'k': 'conv2d', 'src': 3, 'cin': 6, 'cout': 6, 'ks': [3, 3], 'dil': 1, 'stride': 1, 'groups': 6, 'bias': True, 'padding': 'same'},
+        {'k': 'conv2d', 'src': 4, 'cin': 6, 'cout': 4, 'ks': [1, 1], 'dil': 1, 'stride': 1, 'groups': 1, 'bias': True, 'padding': 0},
+        {'k': 'gap2d', 'src': 5}, {'k': 'flatten', 'src': 6},
+        {'k': 'linear', 'src': 7, 'cin': 4, 'cout': 2, 'bias': True})},
+        'style': 'dyadic', 'single': True, 'names': ['params'], 'full_cost': True, 'exclude': []}),
 ]
 
 
@@ -137,6 +157,23 @@ def oracle(o):
                 for d in ('cont', 'disc'):
                     if o[ph][d][n] != o[ph][d][n + '/get_cost']:
                         out.append(('cost-property-differs-from-get_cost', '.cost %r, get_cost() %r' % (o[ph][d][n], o[ph][d][n + '/get_cost'])))
+    # --- after the masks are set: the specification re-assigned (same / dict <-> single / back) and a wrapper
+    #     constructed on the already pruned layers must report the very same costs
+    def same_float(a, b):
+        return a == b or (a != a and b != b)
+    phases = [('respecified-' + ph, o['respec'][ph]) for ph in ('same', 'switched', 'back')] + ([('rewrapped', o['rewrap'])] if 'rewrap' in o else [])
+    for label, obs in phases:
+        for n, val in obs['disc'].items():
+            if n.endswith('/get_cost'):
+                continue
+            ep = o['exp_plain'][n]
+            if val != ep:
+                explained = bool(deg) and val == o['exp_plain_generic'][n]
+                key = ('dw-degenerate-1to1:' + n) if explained else ('cost-%s-differs-from-exported:%s' % (label, n))
+                out.append((key, '%s: discrete %s = %r, before the re-assignment %r, exported network from scratch %r (depthwise layers with pruned channels: %s)'
+                            % (label, n, val, o['pruned']['disc'].get(n), ep, o.get('dw_pruned'))))
+            if label != 'rewrapped' and n in o['pruned']['cont'] and not same_float(obs['cont'][n], o['pruned']['cont'][n]):
+                out.append(('cost-%s-changes-continuous-cost:%s' % (label, n), '%s: continuous %s = %r, before %r' % (label, n, obs['cont'][n], o['pruned']['cont'][n])))
     if 'params' in names:
         if o['pruned']['disc']['params'] != o['exp_numel']:
             out.append(('params-differs-from-numel', 'discrete params cost %r, exported conv/linear parameters have %d elements' % (o['pruned']['disc']['params'], o['exp_numel'])))
@@ -152,7 +189,7 @@ def _replay_dict(o):
     r = {'case': {'seed': o['seed'], 'opts': dict(o.get('opts') or {})}, 'arch': o.get('arch')}
     if 'spec' in (o.get('opts_full') or {}):
         r['case']['opts']['spec'] = o['opts_full']['spec']
-    for k in ('names', 'single', 'full_cost', 'style', 'exclude', 'open', 'pruned', 'orig_plain', 'exp_plain', 'exp_plain_generic', 'degenerate', 'exp_numel', 'reimport', 'trace'):
+    for k in ('names', 'single', 'full_cost', 'style', 'exclude', 'open', 'pruned', 'respec', 'rewrap', 'rewrap_exc', 'dw_pruned', 'orig_plain', 'exp_plain', 'exp_plain_generic', 'degenerate', 'exp_numel', 'reimport', 'trace'):
         if k in o:
             r[k] = o[k]
     r['layers'] = [{k: L.get(k) for k in ('name', 'kind', 'cin', 'cout', 'groups', 'ks', 'search', 'summary', 'sites')} for L in o.get('layers', [])]
@@ -215,9 +252,17 @@ def run(ctx):
                 ctx.dist['layer-invoked-twice:different-output-sizes'] += 1
         if degenerate_layers(o):
             ctx.dist['full-conv-exported-1to1'] += 1
+        if o.get('dw_pruned'):
+            ctx.dist['depthwise-layer-with-pruned-channels:%dd' % o['dim']] += 1
+        if 'rewrap' in o:
+            ctx.dist['wrapper-constructed-on-pruned-layers'] += 1
+        elif 'rewrap_exc' in o:
+            ctx.dist['wrapper-on-pruned-layers-not-possible:' + o['rewrap_exc'].split(':')[0]] += 1
         for key, msg in oracle(o):
             fails.append((key, _replay_dict(o), msg))
     ctx.extra['networks'] = len(used)
+    ctx.extra['networks_with_pruned_depthwise_layer'] = {'1d': ctx.dist.get('depthwise-layer-with-pruned-channels:1d', 0), '2d': ctx.dist.get('depthwise-layer-with-pruned-channels:2d', 0),
+                                                         'note': 'every one of them has its cost specification re-assigned (same, dict <-> single, back) after pruning and is re-wrapped by a PIT built on the pruned layers'}
 
     for key, rep, msg in fails:
         ctx.violation(key, rep, '%s: %s' % (key, msg))
@@ -251,12 +296,24 @@ def run(ctx):
             for o, v in zip(good, vals):
                 costs, esizes, numel, (dwc_ok, degen, wf) = v
                 diff = {}
+                for n in (ORDER if o['dim'] == 2 else ORDER[:4]):
+                    if n not in o['names']:      # single-spec case: the other specs are observed after the switch to a dictionary
+                        e5 = costs[ORDER.index(n)]
+                        disc_n, pexp_n = Fraction(e5[2][0], e5[2][1]), Fraction(e5[3][0], e5[3][1])
+                        ctx.corr += 1
+                        if o['respec']['switched']['disc'].get(n) != disc_n:
+                            diff['disc-after-switched:' + n] = (o['respec']['switched']['disc'].get(n), str(disc_n))
+                        if o['exp_plain'][n] != pexp_n:
+                            diff['exported-from-scratch:' + n] = (o['exp_plain'][n], str(pexp_n))
                 for n in o['names']:
                     e5 = costs[ORDER.index(n)]            # ((a, b), p2, ..., p5) is printed (a, b, p2, ..., p5)
                     cont, disc, pexp, porig, opencont = [Fraction(a, b) for a, b in [(e5[0], e5[1])] + list(e5[2:])]
                     ctx.corr += 1
                     if o['pruned']['disc'][n] != disc:
                         diff['disc:' + n] = (o['pruned']['disc'][n], str(disc))
+                    for label, obs in [(ph, o['respec'][ph]) for ph in ('same', 'switched', 'back')] + ([('rewrap', o['rewrap'])] if 'rewrap' in o else []):
+                        if n in obs['disc'] and obs['disc'][n] != disc:
+                            diff['disc-after-%s:%s' % (label, n)] = (obs['disc'][n], str(disc))
                     if o['exp_plain'][n] != pexp:
                         diff['exported-from-scratch:' + n] = (o['exp_plain'][n], str(pexp))
                     if o['orig_plain'][n] != porig or o['open']['disc'][n] != porig:
@@ -324,6 +381,7 @@ def replay(r):
         for k in ('names', 'full_cost', 'exclude', 'style'):
             print(' ', k, '=', o.get(k))
         print('  before pruning   continuous', o.get('open', {}).get('cont'), '\n                   discrete  ', o.get('open', {}).get('disc'), '\n                   original  ', o.get('orig_plain'))
+        print('  after pruning, cost specification re-assigned: same', o.get('respec', {}).get('same', {}).get('disc'), '\n                   switched', o.get('respec', {}).get('switched', {}).get('disc'), '\n                   back', o.get('respec', {}).get('back', {}).get('disc'), '\n                   wrapper built on the pruned layers', o.get('rewrap', {}).get('disc'), o.get('rewrap_exc', ''))
         print('  after pruning    discrete  ', o.get('pruned', {}).get('disc'), '\n                   exported, from scratch', o.get('exp_plain'), '\n                   PIT(exported)', o.get('reimport', {}).get('disc'), '\n                   numel', o.get('exp_numel'))
         print('required: discrete cost == cost of the exported network from scratch (params: == numel); before pruning continuous == discrete == original')
         for key, msg in res:
